@@ -66,6 +66,7 @@ type Ctx struct {
 	volatileAll bool
 	fn        *ssa.Function
 	oblCount  map[string]int
+	instAxioms []string // quantified facts used by the instantiation stage only (contracts of pure functions)
 	rootFrame *frame
 	loopInts  []string // integer-valued loop variables (φ-nodes of loop headers) of the loops being executed
 	depth     int
